@@ -26,7 +26,8 @@ def specs(rng, tier, count):
         mode = i % 3
         spec = KC.gen_spec(rng, variant=v, geo=g, dim=dim, tier=tier, exact=(mode == 2),
                            nugget=(0.0 if mode < 2 else float(np.round(rng.uniform(0.05, 0.5), 3))),
-                           norm_prob=0.5, mean_nonzero=(v == "Simple" and i % 2 == 0), geom_mode=gm)
+                           norm_prob=0.5, mean_nonzero=(v == "Simple" and i % 2 == 0), geom_mode=gm, drift_mode=(j + 3),
+                           var_scale=([1e-10, 1e8, 1e-13][(i // 7) % 3] if i % 7 == 3 else None))
         if mode < 2:
             spec["cond_err"] = "nugget" if mode == 0 else 0.0
         out.append(spec)
@@ -46,6 +47,7 @@ def one_case(ctx, drv, rng, spec, stats):
         ctx.count(None, hist=dict(probe="exact_at_data"))
         KC.probe_var_bounds(ctx, spec, stats)
         ctx.count(None, hist=dict(probe="var_bounds"))
+        KC.probe_update_sequence(ctx, rng, spec, stats, zero_error=True)
         if spec.get("pseudo_inv", True):
             KC.probe_duplicates(ctx, rng, spec, stats)
             ctx.count(None, hist=dict(probe="duplicates"))
@@ -89,6 +91,15 @@ def run(ctx, only=None):
             n = 140 if ctx.tier == "quick" else 2400
             for spec in specs(rng, ctx.tier, n):
                 one_case(ctx, drv, rng, spec, stats)
+            # ill-conditioned but pseudo-inverse-solvable layouts: variance >= 0 exactly, model agreement on the clipping
+            ill = [(n_, v_, c_) for n_ in ((30, 45, 60) if ctx.tier == "quick" else (30, 40, 50, 60, 80, 100))
+                   for v_ in ("Simple", "Ordinary") for c_ in (("Gaussian",) if ctx.tier == "quick" else ("Gaussian", "Gaussian", "Matern"))]
+            for n_, v_, c_ in ill:
+                KC.probe_illcond(ctx, drv, KC.gen_illcond(rng, n_, v_, c_), stats, model_side=(n_ <= 60))
+            # replicated measurements per location
+            for st_, rp_, v_ in ([(8, 12, "Ordinary"), (6, 20, "Simple")] if ctx.tier == "quick" else
+                                 [(8, 12, "Ordinary"), (6, 20, "Simple"), (12, 40, "Ordinary"), (10, 30, "Simple")]):
+                KC.probe_replicates(ctx, rng, st_, rp_, stats, v_)
     finally:
         if drv:
             drv.close()
